@@ -14,9 +14,14 @@ Theorem C09_methods : userIDHeaderMethods = ["Set"] /\ authorizationHeaderMethod
 Proof. repeat split; reflexivity. Qed.
 Print Assumptions C09_methods.
 
-(* ... and when: the identity header is set under the flag --forward-user-id alone, the credentials are removed under the
+(* the identity asserted is the first value of the proxy's user-ID field (C09_asserted_identity_source);
+   ... and when: the identity header is set under the flag --forward-user-id alone, the credentials are removed under the
    flag --strip-credentials alone - forwardRequest has no other condition (on the method, the path, other headers) in
    front of either; the theorems below are about every request for that reason *)
+Theorem C09_asserted_identity_source : assertedIdentitySource = ["proxyResp.Header.Get(HeaderUserID)"%string].
+Proof. reflexivity. Qed.
+Print Assumptions C09_asserted_identity_source.
+
 Theorem C09_unconditional :
   forwardRequestConds = ["*debug"; "*forwardUserID"; "*stripCredentials"; "err != nil"; "*debug"; "responseForwarder.Close(); err != nil"]%string.
 Proof. reflexivity. Qed.
